@@ -31,7 +31,7 @@ vars == <<desc, term, dense, todo, n_logged>>
 Cls == <<"Dense", "User", "Diag", "ConstDiag", "Identity", "Zero", "Toeplitz", "Tri", "Chol", "Root", "LowRankRoot",
          "Kron", "KronTri", "KronDiag", "KronAddedDiag", "SumKron", "AddedDiag", "LRRAddedDiag", "Sum", "PsdSum",
          "Matmul", "Mul", "ConstMul", "BlockDiag", "BlockInter", "SumBatch", "BatchRepeat", "Cat", "Interp", "Masked",
-         "Perm", "TransPerm", "Kernel">>
+         "Perm", "TransPerm", "Kernel", "KernelM">>
 PdSet == {"Dense", "Diag", "ConstDiag", "Identity", "Toeplitz", "Chol", "Kron", "KronDiag", "KronAddedDiag", "SumKron", "AddedDiag",
           "LRRAddedDiag", "Sum", "PsdSum", "ConstMul", "BlockDiag", "BlockInter", "BatchRepeat", "Mul"}
 DiagSet == {"Diag", "ConstDiag", "Identity", "KronDiag"}
